@@ -45,7 +45,7 @@ ASSUMPTIONS = [
     "cut offsets are exhaustive per enumerated workload; workloads are sampled",
 ]
 EXPECTED_PROBES = ("eof_at_boundary", "eof_in_prefix", "eof_in_header", "eof_in_body", "empty_source", "sock_fin",
-                   "sock_rst", "sock_stall_timeout", "disk_eio", "garbage_bytes", "trim_taken_before_cut")
+                   "sock_rst", "sock_stall_timeout", "disk_eio", "garbage_bytes", "trim_taken_before_cut", "huge_packet")
 ENUM_LIMIT = 160
 
 _packets = factory.import_library()          # import only
@@ -90,14 +90,26 @@ def run(ch, render=False):
         stream = payload(sub, ch.draw(65, "rand_len"))
         layout = []
     else:
+        huge = long_ and ch.chance(1, 8, "huge")
         if long_:
             n = 5 + ch.draw(20, "n")
             cap = 1500
         else:
             n = 1 + ch.draw(6, "n")
             cap = 18
+        if huge:
+            n = 1 + ch.draw(3, "n_huge")
+            if isinstance(rs, int) and rs < 4096:
+                rs = 65536                      # byte-wise refills of a 64 KiB packet cost quadratic time and prove nothing more
         for i in range(n):
-            pkts.append(factory.draw_packet(ch, None, allow_max=False, cap=cap))
+            if huge and (i == 0 or ch.chance(1, 2, "huge_i")):
+                # data fields around half and full range of the 16-bit length field
+                dl = ch.pick((32769, 32768, 32767, 65536, 65535, 40000), "huge_len")
+                hdr = factory.draw_header(ch)
+                pkts.append(factory.build_packet(*hdr, payload(1 + ch.draw(1 << 16, "huge_payload"), dl)))
+                w.probe("huge_packet")
+            else:
+                pkts.append(factory.draw_packet(ch, None, allow_max=False, cap=cap))
         parts = []
         layout = []
         pos = 0
